@@ -81,12 +81,12 @@ class Model:
     """dictionary model of the collections; state = (U: None | (dict name->None, alloc), Bextra: frozenset, nfill, copies)"""
 
     def __init__(self):
-        self.U = None; self.alloc = 0
+        self.U = None; self.alloc = 0; self.alloc2 = 0      # alloc2: the capacity if a late-rejected addition at full capacity has already extended the array (either is fine)
         self.Bx = set(); self.nfill = 0
         self.copies = []          # list of (name, mutated)
 
     def clone(self):
-        m = Model(); m.U = None if self.U is None else set(self.U); m.alloc = self.alloc; m.Bx = set(self.Bx); m.nfill = self.nfill; m.copies = list(self.copies)
+        m = Model(); m.U = None if self.U is None else set(self.U); m.alloc = self.alloc; m.alloc2 = self.alloc2; m.Bx = set(self.Bx); m.nfill = self.nfill; m.copies = list(self.copies)
         return m
 
     def bn(self, norig):
@@ -100,14 +100,18 @@ class Model:
             if self.U is not None: return False, None, None
             c = int(arg)
             if c < 0: return True, 0, True
-            self.U = set(); self.alloc = c; return True, 1, False
+            self.U = set(); self.alloc = self.alloc2 = c; return True, 1, False
         if k in "Aa":
             tgtU = k == "A"
             if tgtU and self.U is None: return False, None, None
             if arg == "NULL": return True, 0, True
+            if arg.startswith("N"):                             # atom count -1: no copy can be made, the addition is rejected and the collection stays as it was
+                if tgtU and len(self.U) == self.alloc2: self.alloc2 += N_NEW        # (room for it may or may not have been made before the rejection)
+                return True, 0, True
             if tgtU:
                 if arg in self.U: return True, 0, True
                 if len(self.U) == self.alloc: self.alloc += N_NEW
+                if len(self.U) == self.alloc2: self.alloc2 += N_NEW
                 self.U.add(arg); return True, 1, False
             if arg in self.Bx or arg in orig: return True, 0, True
             if self.bn(norig) >= CAPMAX: return True, 0, True
@@ -122,6 +126,7 @@ class Model:
                 if any(n in self.U for n in names): return True, 0, True
                 for n in names:
                     if len(self.U) == self.alloc: self.alloc += N_NEW
+                    if len(self.U) == self.alloc2: self.alloc2 += N_NEW
                     self.U.add(n)
                 return True, 1, False
             if any(n in self.Bx or n in orig for n in names): return True, 0, True
@@ -146,10 +151,10 @@ class Model:
             self.copies.pop(0); return True, 1, False
         if k == "F":
             if self.U is None: return False, None, None
-            self.U = None; self.alloc = 0; return True, 1, False
+            self.U = None; self.alloc = self.alloc2 = 0; return True, 1, False
         if k == "P":
             if self.U is not None: return False, None, None
-            c = int(arg); self.U = set("f%02d" % i for i in range(c)); self.alloc = c; return True, 1, False
+            c = int(arg); self.U = set("f%02d" % i for i in range(c)); self.alloc = self.alloc2 = c; return True, 1, False
         if k == "Q":
             kk = int(arg); self.nfill += max(0, CAPMAX - kk - self.bn(norig)); return True, 1, False
         if k == "T":
@@ -199,8 +204,8 @@ def check_state(st, model, orig, base_digest):
                     d = same_crystal(e, mk(e["name"]))
                     if d:
                         out.append(("entry", "entry %s: %s" % (e["name"], d)))
-            exp_spare = min(3, model.alloc - len(model.U))
-            if st["U"]["spare"] != exp_spare and not out:
+            exp_spare = sorted({min(3, model.alloc - len(model.U)), min(3, model.alloc2 - len(model.U))})
+            if st["U"]["spare"] not in exp_spare and not out:
                 out.append(("capacity", "spare capacity class %r, model %r" % (st["U"]["spare"], exp_spare)))
     # built-in collection
     bn = [b[1] if b[0] == "digest" else b[1]["name"] for b in st["B"]]
@@ -259,7 +264,7 @@ class Harness:
 def explore(ctx, exe, roots, alphabet, max_depth, san_exe=None, nworkers=16, label=""):
     """BFS; returns (states, transitions, closed, maxdepth, outcomes)"""
     env = dict(os.environ)
-    env.setdefault("ASAN_OPTIONS", "halt_on_error=0:detect_leaks=0:abort_on_error=0")
+    env.setdefault("ASAN_OPTIONS", "halt_on_error=0:detect_leaks=0:abort_on_error=0:allocator_may_return_null=1")
     env.setdefault("UBSAN_OPTIONS", "halt_on_error=0")
     hs = [Harness(exe, env) for _ in range(nworkers)]
     sans = [Harness(san_exe, env) for _ in range(nworkers)] if san_exe else None
@@ -350,7 +355,8 @@ def explore(ctx, exe, roots, alphabet, max_depth, san_exe=None, nworkers=16, lab
                 viol(hist, op, sym, text)
             if erv == 0 or (erv is None):
                 # a rejected or malformed addition leaves the collection as it was
-                if canon(st) != canon(pst):
+                nospare = lambda t: re.sub(r" spare=-?\d+", "", canon(t))          # reserved room is not content: it may have been made before the rejection
+                if nospare(st) != nospare(pst):
                     viol(hist, op, "failed-op-changed-state", "rejected operation changed the observable state")
             if op == "T":
                 # crystals explicitly inserted into the built-in collection stay there for the life of the process (name + atoms = 2 blocks each)
@@ -358,7 +364,7 @@ def explore(ctx, exe, roots, alphabet, max_depth, san_exe=None, nworkers=16, lab
                 if st["live"] != owned:
                     viol(hist, op, "leak", "after releasing the array and all copies %d blocks allocated by the library are still live (%d belong to the built-in collection)" % (st["live"], owned))
                 continue
-            key = canon(st) + "|alloc=%d" % (min(3, m.alloc - len(m.U)) if m.U is not None else -1)
+            key = canon(st) + "|alloc=%d" % (st["U"]["spare"] if (m.U is not None and st.get("U") and st["U"].get("spare") is not None) else -1)
             with lock:
                 if key not in seen:
                     seen[key] = len(hist) + 1
@@ -428,10 +434,13 @@ def run(ctx, B):
     # 4. a crystal without atoms whose atom pointer is a live buffer: copies must not share it (to closure)
     s, t, closed4, md, oc = explore(ctx, exe, [[], ["P1"]], ["I1", "AO", "AA", "GO", "GA", "K", "M", "X", "F", "aO", "gO"], 30, san_exe=san, label="zero-atom")
     res["zero_atom"] = dict(states=s, transitions=t, closed=closed4, max_depth=md, outcomes=len(oc)); tot_s += s; tot_t += t
+    # 5. an addition that is rejected late (the library's own copy of the crystal cannot be made): the collection must stay as it was (to closure)
+    s, t, closed5, md, oc = explore(ctx, exe, [[], ["P1"], ["P2"]], ["I0", "I1", "AN", "AA", "AB", "GA", "GN", "F", "aN", "aA", "gN", "R0"], 30, san_exe=san, label="late-rejection")
+    res["late_rejection"] = dict(states=s, transitions=t, closed=closed5, max_depth=md, outcomes=len(oc)); tot_s += s; tot_t += t
     ctx.cov.update(states=max(tot_s, 1), transitions=max(tot_t, 1), traces_validated_against_impl=tot_t)
     ctx.add(evaluations=tot_t, nontrivial=tot_s)
     ctx.notes["explorations"] = res
-    ctx.cov["exhaustive"] = bool(closed and closed4)          # the core alphabet ran to closure; the wider alphabets are depth bounded (see explorations)
+    ctx.cov["exhaustive"] = bool(closed and closed4 and closed5)          # the core alphabet ran to closure; the wider alphabets are depth bounded (see explorations)
     ctx.sample(dict(history=["P2", "AA", "R1", "GA", "M", "F"], meaning="array at capacity 2, add A (growth), load file with F and G, copy A, scribble over the copy, free the array"))
     ctx.sample(dict(history=["Q1", "aA", "aB"], meaning="built-in collection filled to 511, add A (fills it), add B (must be refused, collection intact)"))
     ctx.cov["rule"] = ("explicit-state BFS over operation histories of the real crystal collection code: state = observable content through the public list/lookup API "
